@@ -165,12 +165,10 @@ class DataSet:
             frequencies = flip(frequencies)
             impedances = flip(impedances)
             if len(mask) > 0:
-                i: int
-                for i in range(0, frequencies.size):
-                    j: int = frequencies.size - 1 - i
-                    flag: bool = mask.get(i, False)
-                    mask[i] = mask.get(j, False)
-                    mask[j] = flag
+                # The indices in the mask refer to the order in which the data
+                # points were provided. Create a new dictionary so that the
+                # one provided by the caller is left untouched.
+                mask = {frequencies.size - 1 - i: flag for i, flag in mask.items()}
 
         self.uuid: str = uuid or uuid4().hex
         self._path: str = path
